@@ -8,6 +8,7 @@ import Driver.HtmlP
 import Driver.TagP
 import Driver.PassP
 import Driver.TreeP
+import Driver.ResP
 /-! Line-protocol driver (E3): first word selects a sub-protocol, one output line per input line.
     Imports only core-only Model/Spec modules so that it links as a `lean_exe`. -/
 open Gomjml
@@ -35,6 +36,7 @@ def handle (line : String) : String :=
   | "tags" :: args => Driver.HtmlP.tagsHandle args
   | "tag" :: args => Driver.TagP.handle args
   | "tree" :: args => Driver.TreeP.handle args
+  | "res" :: args => Driver.ResP.handle args
   | "amp" :: args => Driver.PassP.handle "amp" args
   | "ent" :: args => Driver.PassP.handle "ent" args
   | "strip" :: args => Driver.PassP.handle "strip" args
